@@ -407,10 +407,17 @@ def session_case(rng):
     params = f"p1  {a};\np2  \"$p1 + {b}\";\np3  \"$p2 * {c}\";\np4  $p1;\n"
     pv = {"p1": a, "p2": a + b, "p3": (a + b) * c, "p4": a}
     files, expect = {"params": params}, {}
+    # two more included files that both declare the nested dict cfg (different keys): declarations spread over included files
+    files["incA"] = f"cfg\n{{\n    length  {a}.0;\n    sub {{ s1 {b}; }}\n}}\n"
+    files["incB"] = f"cfg\n{{\n    width  {c}.5;\n    sub {{ s2 {c}; }}\n}}\n"
     for nm in ("caseA", "caseB", "caseC"):
         n = rng.randrange(1, 7)
         x = rng.randrange(1, 9)
-        lines, vals = ["#include 'params'", f"{nm}0  {x};"], {f"{nm}0": x}
+        lines, vals = ["#include 'params'", "#include 'incA'", "#include 'incB'", f"{nm}0  {x};"], {f"{nm}0": x}
+        lines.append(f'{nm}area  "$length * $width";')
+        lines.append(f'{nm}s  "$s1 + $s2";')
+        vals[f"{nm}area"] = float(a) * (c + 0.5)
+        vals[f"{nm}s"] = b + c
         for i in range(1, n + 1):
             prev = f"{nm}{i - 1}"
             ref = rng.choice(["p1", "p2", "p3"])
